@@ -26,6 +26,10 @@ CORPUS = [
     [("X", ("seq", [("plus", N("Y")), c("a")])), ("Y", ("alt", [("seq", [("pred", 0), N("X")]), c("b")]))],
     [("X", c("a")), ("Y", c("b")), ("X", c("c"))],
     [("X", ("seq", [N("Y"), c("a")])), ("Y", ("seq", [("act", 0), ("state", 0), N("X")]))],
+    [("A", ("alt", [("seq", [("plus", N("B")), N("A"), c("x")]), c("y")])), ("B", ("q", c("b")))],
+    [("A", ("alt", [("seq", [("plus", ("not", c("q"))), N("A"), c("x")]), c("y")]))],
+    [("A", ("seq", [("plus", ("seq", [N("A"), c("x")])), c("y")]))],
+    [("A", ("seq", [("star", ("q", c("a"))), N("A")]))],
 ]
 
 
@@ -38,6 +42,10 @@ class IllGen(P.GGen):
         if r.random() < 0.22:
             pool = self.names + ["Undef%d" % r.randint(0, 2)] * (1 if r.random() < 0.3 else 0)
             return ("name", r.choice(pool))
+        if depth > 0 and r.random() < 0.12:
+            # repetition of anything, also of expressions that may match empty (the generator is only asked
+            # to diagnose these grammars, the parsers are not run)
+            return (r.choice(["plus", "plus", "star"]), self.any(depth - 1, rank, head))
         return super().any(depth, rank, head)
 
     def grammar(self):
